@@ -25,6 +25,140 @@ type Eff struct {
 	At     ssa.Instruction // instruction inside the semantic function (the op itself or the call to the wrapper)
 	Prim   ssa.Instruction // the primitive instruction
 	Via    []string        // wrapper chain
+	Chain  []ssa.CallInstruction // call sites from the semantic function down to the function containing Prim
+}
+
+// EL is Leaves of a value that belongs to the frame of the effect's primitive, with the parameters of
+// folded wrappers / helpers bound to the actuals of the call chain the effect was folded through.
+func (c *Ctx) EL(e Eff, v ssa.Value, opt ana.PVOpt) *ana.Prov {
+	if len(e.Chain) == 0 || v == nil || e.Prim == nil || v.Parent() != e.Prim.Parent() {
+		return c.P.Leaves(v, opt)
+	}
+	return c.P.LeavesChain(v, e.Chain, opt)
+}
+
+// helperCaller returns the single outermost caller of g when g is a private helper candidate: a named,
+// unexported, non-generated module function with a body, which is not an entry point and all of whose
+// call sites lie in one other outermost function.
+func (c *Ctx) helperCaller(g *ssa.Function) *ssa.Function {
+	if g == nil || g.Parent() != nil || g.Blocks == nil || g.Object() == nil || g.Object().Exported() || c.P.L.IsGenerated(g.Pos()) {
+		return nil
+	}
+	rt := c.Roots()
+	for _, set := range [][]*ssa.Function{rt.Block, rt.Msg, rt.Gov, rt.InitGen, rt.ExportGen, rt.Query} {
+		if isRoot(g, set) {
+			return nil
+		}
+	}
+	var caller *ssa.Function
+	for _, e := range c.P.In[g] {
+		o := ana.Outermost(e.Caller)
+		if o == g || e.Kind != "static" {
+			return nil
+		}
+		if caller != nil && caller != o {
+			return nil
+		}
+		caller = o
+	}
+	return caller
+}
+
+// RegisterHelper marks g as an implementation detail of its single caller: from the next pass on its
+// effects are attributed to that caller (at the call site) and g is no longer a semantic function.
+func (c *Ctx) RegisterHelper(g *ssa.Function) bool {
+	if c.helperCaller(g) == nil {
+		return false
+	}
+	if c.Fold == nil {
+		c.Fold = &FoldSet{M: map[*ssa.Function]bool{}}
+	}
+	if !c.Fold.M[g] {
+		c.Fold.M[g] = true
+		c.Fold.Changed = true
+	}
+	return true
+}
+
+func (c *Ctx) isHelper(g *ssa.Function) bool { return c.Fold != nil && c.Fold.M[g] }
+
+// FoldSet is the set of registered helpers (shared between a check and the checks it includes).
+type FoldSet struct {
+	M       map[*ssa.Function]bool
+	Changed bool
+}
+
+// roleFuncs returns the semantic functions whose effects satisfy pred.  When none does, the search is
+// repeated with every private single-caller helper folded into its caller; the innermost function that
+// then satisfies pred plays the role, and the helpers it needed are registered (the check is re-run).
+func (c *Ctx) roleFuncs(reach map[*ssa.Function]bool, pred func(f *ssa.Function, effs []Eff) bool) []*ssa.Function {
+	var out []*ssa.Function
+	sem := c.SemanticFuncs(reach)
+	for _, f := range sem {
+		if pred(f, c.Effects(f)) {
+			out = append(out, f)
+		}
+	}
+	if len(out) > 0 {
+		return out
+	}
+	var cands []*ssa.Function
+	used := map[*ssa.Function][]*ssa.Function{}
+	for _, f := range sem {
+		var hs []*ssa.Function
+		effs := c.effectsFoldAll(f, 0, &hs)
+		if len(hs) > 0 && pred(f, effs) {
+			cands = append(cands, f)
+			used[f] = hs
+		}
+	}
+	for _, f := range cands {
+		inner := true
+		for _, g := range cands {
+			if g != f && c.P.Reach(f)[g] && !c.P.Reach(g)[f] {
+				inner = false
+			}
+		}
+		if inner {
+			for _, h := range used[f] {
+				c.RegisterHelper(h)
+			}
+		}
+	}
+	return nil
+}
+
+func (c *Ctx) effectsFoldAll(f *ssa.Function, depth int, hs *[]*ssa.Function) []Eff {
+	out := c.Effects(f)
+	if depth > 2 {
+		return out
+	}
+	seen := map[*ssa.Function]bool{}
+	var visit func(g *ssa.Function)
+	visit = func(g *ssa.Function) {
+		for _, e := range c.P.Out[g] {
+			h := e.Callee
+			if seen[h] || c.isThin(h) || c.isHelper(h) || c.helperCaller(h) != ana.Outermost(f) {
+				continue
+			}
+			seen[h] = true
+			sub := c.effectsFoldAll(h, depth+1, hs)
+			if len(sub) > 0 {
+				*hs = append(*hs, h)
+				for _, we := range sub {
+					we.In = f
+					we.At = e.Site.(ssa.Instruction)
+					we.Chain = append([]ssa.CallInstruction{e.Site}, we.Chain...)
+					out = append(out, we)
+				}
+			}
+		}
+		for _, an := range g.AnonFuncs {
+			visit(an)
+		}
+	}
+	visit(f)
+	return out
 }
 
 // isThin reports a wrapper: straight-line code (one block besides the recover
@@ -85,11 +219,12 @@ func (c *Ctx) Effects(fn *ssa.Function) []Eff {
 			out = append(out, Eff{Kind: "bank", Op: op.Op, Bank: op, In: f, At: in, Prim: in})
 		}
 		for _, e := range c.P.Out[f] {
-			if c.isThin(e.Callee) {
+			if c.isThin(e.Callee) || c.isHelper(e.Callee) {
 				for _, we := range c.wrapperEffects(e.Callee, 0) {
 					we.In = f
 					we.At = e.Site.(ssa.Instruction)
 					we.Via = append([]string{fname(e.Callee)}, we.Via...)
+					we.Chain = append([]ssa.CallInstruction{e.Site}, we.Chain...)
 					out = append(out, we)
 				}
 			}
@@ -116,11 +251,17 @@ func (c *Ctx) wrapperEffects(w *ssa.Function, depth int) []Eff {
 		out = append(out, Eff{Kind: "bank", Op: op.Op, Bank: op, Prim: in})
 	}
 	for _, e := range c.P.Out[w] {
-		if c.isThin(e.Callee) {
+		if c.isThin(e.Callee) || c.isHelper(e.Callee) {
 			for _, we := range c.wrapperEffects(e.Callee, depth+1) {
 				we.Via = append([]string{fname(e.Callee)}, we.Via...)
+				we.Chain = append([]ssa.CallInstruction{e.Site}, we.Chain...)
 				out = append(out, we)
 			}
+		}
+	}
+	if c.isHelper(w) {
+		for _, an := range w.AnonFuncs {
+			out = append(out, c.wrapperEffects(an, depth+1)...)
 		}
 	}
 	return out
@@ -132,7 +273,7 @@ func (c *Ctx) SemanticFuncs(reach map[*ssa.Function]bool) []*ssa.Function {
 	var out []*ssa.Function
 	for _, f := range sortedFuncs(reach) {
 		o := ana.Outermost(f)
-		if seen[o] || c.isThin(o) || c.P.L.IsGenerated(o.Pos()) {
+		if seen[o] || c.isThin(o) || c.isHelper(o) || c.P.L.IsGenerated(o.Pos()) {
 			continue
 		}
 		seen[o] = true
@@ -202,4 +343,129 @@ func viaStr(e Eff) string {
 		return ""
 	}
 	return " via " + strings.Join(e.Via, " -> ")
+}
+
+
+// outerValue resolves a value that belongs to the frame of a folded effect to the frame of the semantic
+// function: conversions and one-element slice literals are stripped and a parameter of a folded wrapper /
+// helper is replaced by the actual of the call the effect was folded through.
+func outerValue(v ssa.Value, chain []ssa.CallInstruction) ssa.Value {
+	for i := 0; i < 12 && v != nil; i++ {
+		switch x := v.(type) {
+		case *ssa.ChangeType:
+			v = x.X
+		case *ssa.MakeInterface:
+			v = x.X
+		case *ssa.Slice:
+			el := singleElem(x)
+			if el == nil {
+				return v
+			}
+			v = el
+		case *ssa.Parameter:
+			n := len(chain)
+			if n == 0 {
+				return v
+			}
+			site := chain[n-1]
+			var callee *ssa.Function
+			if cc := site.Common(); cc != nil {
+				callee = cc.StaticCallee()
+			}
+			if callee == nil || callee != x.Parent() {
+				return v
+			}
+			idx := -1
+			for j, par := range callee.Params {
+				if par == x {
+					idx = j
+				}
+			}
+			args := site.Common().Args
+			if idx < 0 || idx >= len(args) {
+				return v
+			}
+			v = args[idx]
+			chain = chain[:n-1]
+		default:
+			return v
+		}
+	}
+	return v
+}
+
+// singleElem returns the only element of a one-element array literal that is sliced (sdk.Coins{c}).
+func singleElem(x *ssa.Slice) ssa.Value {
+	a, ok := x.X.(*ssa.Alloc)
+	if !ok {
+		return nil
+	}
+	var el ssa.Value
+	n := 0
+	for _, ref := range *a.Referrers() {
+		if ia, ok := ref.(*ssa.IndexAddr); ok {
+			for _, rr := range *ia.Referrers() {
+				if st, ok := rr.(*ssa.Store); ok && st.Addr == ssa.Value(ia) {
+					el = st.Val
+					n++
+				}
+			}
+		}
+	}
+	if n != 1 {
+		return nil
+	}
+	return el
+}
+
+// sameCoins reports that two effect operands denote the same coins value of the semantic function.
+func sameCoins(a Eff, av ssa.Value, b Eff, bv ssa.Value) bool {
+	if av == nil || bv == nil {
+		return false
+	}
+	if av == bv && sameChain(a.Chain, b.Chain) {
+		return true
+	}
+	x, y := outerValue(av, a.Chain), outerValue(bv, b.Chain)
+	if xp, ok := x.(*ssa.Parameter); ok {
+		// still a parameter: only equal within the same call chain
+		if yp, ok := y.(*ssa.Parameter); ok {
+			return xp == yp && sameChain(a.Chain, b.Chain)
+		}
+		return false
+	}
+	return x == y || sameObject(x, y)
+}
+
+func sameChain(a, b []ssa.CallInstruction) bool {
+	if len(a) != len(b) {
+		return false
+	}
+	for i := range a {
+		if a[i] != b[i] {
+			return false
+		}
+	}
+	return true
+}
+
+// guardedUp: the instruction is guarded by the atoms in its own function or, failing that, at every place
+// its function is entered from (up to three frames up) – a guard stays a guard when the guarded statements
+// are moved into a helper.
+func (c *Ctx) guardedUp(in ssa.Instruction, atoms ...ana.Atom) bool {
+	if ana.Guarded(in, atoms...) {
+		return true
+	}
+	ok, _ := c.P.GuardedInter(in, 3, atoms...)
+	return ok
+}
+
+// isGenesisImport: InitGenesis itself or a function that is reachable from InitGenesis and from no
+// other entry point (a part of the import that was given its own name).
+func (c *Ctx) isGenesisImport(f *ssa.Function) bool {
+	rt := c.Roots()
+	if isRoot(f, rt.InitGen) {
+		return true
+	}
+	return c.P.Reach(rt.InitGen...)[f] && c.onlyFrom(f, rt.InitGen)
 }
